@@ -269,21 +269,15 @@ def judgeFinish (s : JudgeSt) : String :=
   | some b => s!"fail - {b}"
   | none =>
     let hP := s.hist.reverse
-    -- groups as the allocation table distinguishes them (theorem `plugin_spec_holds_groups_partial`)
+    -- groups as the allocation table distinguishes them (theorem `plugin_spec_holds_groups`)
     let h := hP.map (rekey (·.spec))
     if holds capExact h then "ok"
     else
       let keys := dedupKeys (h.map (·.key)) []
       let failing := keys.filter fun k => !holdsKeyRev capExact (keyHist k h)
-      -- groups are independent (theorem `projection`): classify each failing group on its own history
-      let cls := failing.map fun k => (k, findingP hP k)
-      let fid := if cls.any (·.2.isNone) then "-" else
-        match cls with
-        | (_, some f) :: _ => f
-        | _ => "-"
-      let pick := match cls.find? (·.2.isNone) with
-        | some (k, _) => some k
-        | none => failing.head?
+      -- no finding of C09 is open: every failure is unexplained
+      let fid := "-"
+      let pick := failing.head?
       match pick with
       | none => s!"fail {fid} spec-violated"
       | some k =>
